@@ -57,7 +57,7 @@ PROPS = {
                      "dischargers and a guard-checked justification table",
     },
     "C11": {
-        "rules": [r_fmt.lexicon_rows_reader, r_feat.run, r_feat.rawinput, r_feat.csvdefault, r_misc.lexmap_shape, r_token.dispatch,
+        "rules": [r_fmt.lexicon_rows_reader, r_feat.run, r_feat.rawinput, r_feat.csvdefault, r_misc.lexmap_shape, r_misc.homograph_accumulate, r_token.dispatch,
                   r_misc.parallel, r_char.packguard,
                   kind_scope("dictionary::lexicon", "dictionary::unknown")],
         "explanation": "FMT(reader side): parse_csv stores CSV column 1, 2, 3 into left_id, "
@@ -244,7 +244,7 @@ PROPS = {
     },
     "C03": {
         "rules": [r_cand.cand, r_cand.unkfall, r_cand.unkgroup, r_cand.unkspans, r_cand.unkscan, r_cand.grouprun, r_cand.charrange,
-                  r_reset.run_tokens, r_misc.optkeep_tokenizer, r_char.run, r_map.run_user, r_char.packguard,
+                  r_reset.run_tokens, r_misc.optkeep_tokenizer, r_char.run, r_map.run_user, r_char.packguard, r_misc.homograph_accumulate,
                   kind_scope("dictionary::unknown", "tokenizer")],
         "explanation": "CAND: at every processed position both lexicons are searched over the "
                        "same remaining text, every match is inserted and sets has_matched, and "
